@@ -269,3 +269,16 @@ def describe(scenario):
                      "space": {k: v for k, v in e["space"].items() if k != "allocations"}, "episode_length": e.get("episode_length"),
                      "events_head": e["events"][:6]})
     return {"envs": envs, "script_len": len(scenario["script"]), "script_head": scenario["script"][:8]}
+
+
+def with_backtest_driver(generate, p=0.2):
+    """Wraps a property's generate(): a share p of its episode scenarios is driven by the library's own
+    episode driver (TradingEnv.backtest with a scripted policy) instead of direct reset()/step() calls;
+    the recorded calls, and therefore every oracle, are the same in both cases (epi.EpiSim.do_backtest)."""
+    def wrapped(rng, i, *args, **kwargs):
+        sc = generate(rng, i, *args, **kwargs)
+        if isinstance(sc, dict) and sc.get("kind") == "epi" and not sc.get("construct_only") and rng.random() < p:
+            sc["driver"] = "backtest"
+        return sc
+    wrapped.__wrapped__ = generate
+    return wrapped
